@@ -168,14 +168,46 @@ Proof. intros [Hv Hi Hs Hr Hn]. constructor; assumption. Qed.
 Definition outcome_state (o : outcome) (dflt : state) : state :=
   match o with Done s _ => s | Failed s _ => s | Panicked => dflt end.
 
+(* ---------- script creates (IScript) ---------- *)
+(* a create whose script sets metadata is a failure that keeps the state, or the plain create of the merged metadata:
+   every statement about [run_input] is therefore proved for ICreate first and transported *)
+Lemma run_input_script_cases f now s ps ts ref md amd force smd samd :
+  (exists e, run_input f now s (IScript ps ts ref md amd force smd samd) = Failed s e) \/
+  (exists md', script_tx_meta smd md = Some md' /\
+     run_input f now s (IScript ps ts ref md amd force smd samd) =
+     run_input f now s (ICreate ps ts ref md' (script_acc_meta samd amd) force)).
+Proof.
+  simpl. destruct ps as [|p ps']; [left; eexists; reflexivity|].
+  destruct (feasible force (s_vols s) (p :: ps')); simpl; [|left; eexists; reflexivity].
+  destruct (script_tx_meta smd md) as [md'|]; [right; exists md'; split; reflexivity | left; eexists; reflexivity].
+Qed.
+
+(* [script_split i]: from a goal [P i] make (1) [P (ICreate ..)] for all arguments, (2) [P i] with (1) as hypothesis [Hc] *)
+Ltac script_split i :=
+  pattern i;
+  match goal with |- ?P i =>
+    assert (Hc : forall ps ts ref md amd force, P (ICreate ps ts ref md amd force));
+    [intros ps ts ref md amd force; cbv beta | cbv beta]
+  end.
+(* the IScript case of such a goal, from [Hc]: a failure on the unchanged state behaves as the create of no postings *)
+Ltac script_bullet Hc :=
+  match goal with
+  | |- context [run_input ?f ?now ?s (IScript ?ps ?ts ?ref ?md ?amd ?force ?smd ?samd)] =>
+    let e := fresh "e" in let E := fresh "E" in let md' := fresh "md'" in
+    destruct (run_input_script_cases f now s ps ts ref md amd force smd samd) as [[e E]|(md' & _ & E)]; rewrite E;
+    [ first [ exact (Hc (@nil posting) ts ref md amd force) | intros; discriminate | intros; congruence ] | apply Hc ]
+  end.
+
 Lemma run_input_inv f now s i : InvT s -> InvT (outcome_state (run_input f now s i) s).
 Proof.
-  intros HI. destruct i as [ps ts ref md amd force | id force at_eff rmeta | [a|id] md | [a|id] k]; simpl.
-  - destruct ps as [|p ps']; [exact HI|].
+  intros HI. script_split i.
+  { simpl. unfold create_tx. destruct ps as [|p ps']; [exact HI|].
     destruct (feasible force (s_vols s) (p :: ps')); simpl; [|exact HI].
     destruct (commit_transaction f now s (p :: ps') md ts ref) as [s1 [t|]] eqn:E; simpl.
     + apply upsert_tx_accounts_inv. eapply commit_some_inv; eassumption.
-    + eapply commit_none_inv; eassumption.
+    + eapply commit_none_inv; eassumption. }
+  destruct i as [ps ts ref md amd force | id force at_eff rmeta | [a|id] md | [a|id] k | ps ts ref md amd force smd samd];
+    [apply Hc | | | | | | script_bullet Hc]; simpl.
   - destruct (find_tx (s_txs s) id) as [t|]; [|exact HI].
     destruct (t_rev t); [exact HI|].
     set (mark := fun x : tx => tx_with x (t_meta x) now (Some now)).
@@ -206,13 +238,15 @@ Qed.
 Lemma run_input_logs f now s i :
   let s' := outcome_state (run_input f now s i) s in s_logs s' = s_logs s /\ s_next_log s' = s_next_log s.
 Proof.
-  destruct i as [ps ts ref md amd force | id force at_eff rmeta | [a|id] md | [a|id] k]; simpl.
-  - destruct ps as [|p ps']; [tauto|].
+  script_split i.
+  { simpl. unfold create_tx. destruct ps as [|p ps']; [tauto|].
     destruct (feasible force (s_vols s) (p :: ps')); simpl; [|tauto].
     destruct (commit_transaction f now s (p :: ps') md ts ref) as [s1 [t|]] eqn:E; simpl.
     + destruct (upsert_tx_accounts_frame f now s1 t amd) as (_ & _ & _ & _ & E1 & _ & E2 & _). rewrite E1, E2.
       eapply commit_logs; eassumption.
-    + eapply commit_logs; eassumption.
+    + eapply commit_logs; eassumption. }
+  destruct i as [ps ts ref md amd force | id force at_eff rmeta | [a|id] md | [a|id] k | ps ts ref md amd force smd samd];
+    [apply Hc | | | | | | script_bullet Hc]; simpl.
   - destruct (find_tx (s_txs s) id) as [t|]; [|tauto].
     destruct (t_rev t); [tauto|].
     match goal with |- context [match ?c with RCOk => _ | RCInsufficient => _ | RCPanic => _ end] => destruct c end;
@@ -233,12 +267,14 @@ Proof. destruct o; intros H; [apply commit_some in H | apply commit_none in H]; 
 Lemma run_input_next_mono f now s i : s_next_tx s <= s_next_tx (outcome_state (run_input f now s i) s).
 Proof.
   assert (R : s_next_tx s <= s_next_tx s) by apply Z.le_refl.
-  destruct i as [ps ts ref md amd force | id force at_eff rmeta | [a|id] md | [a|id] k]; simpl.
-  - destruct ps as [|p ps']; [exact R|].
+  script_split i.
+  { simpl. unfold create_tx. destruct ps as [|p ps']; [exact R|].
     destruct (feasible force (s_vols s) (p :: ps')); simpl; [|exact R].
     destruct (commit_transaction f now s (p :: ps') md ts ref) as [s1 [t|]] eqn:E; simpl.
     + destruct (upsert_tx_accounts_frame f now s1 t amd) as (_ & _ & _ & _ & _ & E1 & _). rewrite E1. eapply commit_next_mono; eassumption.
-    + eapply commit_next_mono; eassumption.
+    + eapply commit_next_mono; eassumption. }
+  destruct i as [ps ts ref md amd force | id force at_eff rmeta | [a|id] md | [a|id] k | ps ts ref md amd force smd samd];
+    [apply Hc | | | | | | script_bullet Hc]; simpl.
   - destruct (find_tx (s_txs s) id) as [t|]; [|exact R].
     destruct (t_rev t); [exact R|].
     match goal with |- context [match ?c with RCOk => _ | RCInsufficient => _ | RCPanic => _ end] => destruct c end;
@@ -385,13 +421,15 @@ Proof. intros [[A B]|[ps [A B]]] E1 E2; [left | right; exists ps]; rewrite E1, E
 
 Lemma run_input_vol_shape f now s i : vol_shape s (outcome_state (run_input f now s i) s).
 Proof.
-  destruct i as [ps ts ref md amd force | id force at_eff rmeta | [a|id] md | [a|id] k]; simpl.
-  - destruct ps as [|p ps']; [apply vol_shape_refl|].
+  script_split i.
+  { simpl. unfold create_tx. destruct ps as [|p ps']; [apply vol_shape_refl|].
     destruct (feasible force (s_vols s) (p :: ps')); simpl; [|apply vol_shape_refl].
     destruct (commit_transaction f now s (p :: ps') md ts ref) as [s1 [t|]] eqn:E; simpl.
     + destruct (upsert_tx_accounts_frame f now s1 t amd) as (E1 & E2 & _).
       eapply vol_shape_then_noop; [eapply commit_vol_shape; exact E | exact E1 | unfold all_postings; rewrite E2; reflexivity].
-    + eapply commit_vol_shape; exact E.
+    + eapply commit_vol_shape; exact E. }
+  destruct i as [ps ts ref md amd force | id force at_eff rmeta | [a|id] md | [a|id] k | ps ts ref md amd force smd samd];
+    [apply Hc | | | | | | script_bullet Hc]; simpl.
   - destruct (find_tx (s_txs s) id) as [t|]; [|apply vol_shape_refl].
     destruct (t_rev t); [apply vol_shape_refl|].
     set (mark := fun x : tx => tx_with x (t_meta x) now (Some now)).
